@@ -354,6 +354,52 @@ def loop_prologue():
     return "[" + "; ".join(effs) + "]"
 
 
+def log_prob_plan():
+    """How ImportanceFlowModel.log_prob_all / log_prob_ith split the rows they evaluate.  -> Coq term of type bplan."""
+    mod, _ = parse(CLASSES["ImportanceFlowModel"])
+    consts = {n.targets[0].id: n.value.value for n in mod.body
+              if isinstance(n, ast.Assign) and len(n.targets) == 1 and isinstance(n.targets[0], ast.Name)
+              and isinstance(n.value, ast.Constant) and isinstance(n.value.value, int)}
+    plans = []
+    for meth in ("log_prob_all", "log_prob_ith"):
+        m = method("ImportanceFlowModel", meth)
+        if m is None:
+            raise Declined(f"ImportanceFlowModel.{meth} not found")
+        fn = m[1]
+        src = unparse(fn)
+        sliced = any(isinstance(n, ast.Call) and dotted(n.func) == "slice" for n in ast.walk(fn)) or \
+            any(isinstance(n, ast.Subscript) and isinstance(n.slice, ast.Slice) and (n.slice.lower or n.slice.upper)
+                and not unparse(n).startswith("self.models") for n in ast.walk(fn))
+        splits = any(isinstance(n, ast.Call) and (dotted(n.func) or "").split(".")[-1] in
+                     ("split", "array_split", "chunk", "tensor_split", "DataLoader") for n in ast.walk(fn))
+        if splits:
+            raise Declined(f"{meth} splits its input with a library call: no rule")
+        if not sliced:
+            plans.append("NoBatch")
+            continue
+        # n_batches = <expr>; for j in range(n_batches): slice(j * B, (j + 1) * B)
+        nb = [n for n in ast.walk(fn) if isinstance(n, ast.Assign) and len(n.targets) == 1
+              and isinstance(n.targets[0], ast.Name) and n.targets[0].id in ("n_batches", "n_batch", "nb")]
+        if len(nb) != 1:
+            raise Declined(f"{meth} slices its input but the number of batches has no rule")
+        e = unparse(nb[0].value)
+        import re as _re
+        def size(tok):
+            return consts.get(tok, int(tok) if tok.isdigit() else None)
+        mm = _re.fullmatch(r"max\((\w+) // (\w+), 1\)", e) or _re.fullmatch(r"(\w+) // (\w+)", e)
+        if mm and size(mm.group(2)):
+            plans.append(f"(FloorBatches {size(mm.group(2))})")
+            continue
+        mm = _re.fullmatch(r"\((\w+) \+ (\w+) - 1\) // (\w+)", e) or _re.fullmatch(r"-\(-(\w+) // (\w+)\)", e) \
+            or _re.fullmatch(r"(?:math|np)\.ceil\((\w+) / (\w+)\)", e) or _re.fullmatch(r"int\((?:math|np)\.ceil\((\w+) / (\w+)\)\)", e)
+        if mm and size(mm.groups()[-1]):
+            plans.append(f"(CeilBatches {size(mm.groups()[-1])})")
+            continue
+        raise Declined(f"{meth}: number of batches `{e}` has no rule")
+    worst = [p for p in plans if p != "NoBatch"]
+    return (worst[0] if worst else "NoBatch"), plans
+
+
 TARGETS = [("NestedSampler", "cls_sampler"), ("ImportanceNestedSampler", "cls_ins_sampler"),
            ("FlowProposal", "cls_proposal"), ("AugmentedFlowProposal", "cls_proposal"),
            ("RejectionProposal", "cls_proposal"), ("ImportanceFlowProposal", "cls_ins_proposal"),
@@ -369,3 +415,4 @@ if __name__ == "__main__":
             print(c, "declined:", e)
     print(counter_effects())
     print(loop_prologue())
+    print(log_prob_plan())
